@@ -233,7 +233,7 @@ func c03cfg(mult string) chain.Config {
 	switch mult {
 	case "type3":
 		// several keyed multipliers; the judged ones are not the first of the list
-		cfg.FeeMult = &chain.FeeMult{Keys: []string{"unjail", "send", "stake_validator"}, Mults: []int64{1, 3, 2}, Default: 1}
+		cfg.FeeMult = &chain.FeeMult{Keys: []string{"unjail", "send", "stake_validator", "upgrade", "dao_tranfer"}, Mults: []int64{1, 3, 2, 5, 4}, Default: 1}
 	case "default0":
 		cfg.FeeMult = &chain.FeeMult{Default: 0}
 	case "huge":
@@ -305,7 +305,11 @@ func c03cases() []c03case {
 	for _, mult := range []string{"default1", "type3", "default0"} {
 		for _, m := range c03msgKinds {
 			for _, s := range signers {
-				for _, f := range []string{"req-1", "req", "req+1", "none", "other-denom-only", "other-denom+1upokt", "other-denom+req"} {
+				fees := []string{"req-1", "req", "req+1", "none", "other-denom-only", "other-denom+1upokt", "other-denom+req"}
+				if mult == "default1" {
+					fees = append(fees, "req+negative-later-denom", "negative-first-denom+req", "req+zero-later-denom")
+				}
+				for _, f := range fees {
 					c := base
 					c.Name, c.Msg, c.Signer, c.Fee, c.FeeMult = "C", m, s.kind, f, mult
 					cs = append(cs, c)
@@ -391,17 +395,23 @@ func (e *c03env) build(c c03case, view chain.View) c03built {
 	mult := int64(1)
 	switch c.FeeMult {
 	case "type3":
-		switch msg.Type() {
+		// keyed by the message type names of the wire format (send, stake_validator, unjail, upgrade,
+		// dao_tranfer [sic]); decided from the kind of message the harness built, not from msg.Type()
+		switch c.Msg {
 		case "send":
 			mult = 3
-		case "stake_validator":
+		case "stake":
 			mult = 2
+		case "upgrade":
+			mult = 5
+		case "dao_transfer", "dao_burn":
+			mult = 4
 		}
 	case "default0":
 		mult = 0
 	case "huge":
 		mult = c03hugeDefault
-		if msg.Type() == "send" {
+		if c.Msg == "send" {
 			mult = c03hugeSend
 		}
 	}
@@ -437,6 +447,13 @@ func (e *c03env) build(c c03case, view chain.View) c03built {
 		if required > 0 {
 			fee = fee.Add(sdk.NewCoins(sdk.NewCoin(chain.Denom, sdk.NewInt(required))))
 		}
+	case "req+negative-later-denom":
+		// a well-sorted fee whose second entry is negative (built literally: the constructors refuse it)
+		fee = sdk.Coins{sdk.Coin{Denom: chain.Denom, Amount: sdk.NewInt(required + 1)}, sdk.Coin{Denom: "zzz", Amount: sdk.NewInt(-5000)}}
+	case "negative-first-denom+req":
+		fee = sdk.Coins{sdk.Coin{Denom: "abc", Amount: sdk.NewInt(-1)}, sdk.Coin{Denom: chain.Denom, Amount: sdk.NewInt(required + 1)}}
+	case "req+zero-later-denom":
+		fee = sdk.Coins{sdk.Coin{Denom: chain.Denom, Amount: sdk.NewInt(required + 1)}, sdk.Coin{Denom: "zzz", Amount: sdk.NewInt(0)}}
 	}
 	memo := ""
 	switch c.Memo {
@@ -550,7 +567,7 @@ func (e *c03env) build(c c03case, view chain.View) c03built {
 		out.why = "public key is not the signer's"
 	case !accExists:
 		out.why = "signer account unknown"
-	case !fee.IsValid() && !fee.Empty():
+	case !c03feeWellFormed(fee):
 		out.why = "invalid fee"
 	case bal.LT(fee.AmountOf(chain.Denom)) || fee.AmountOf("abc").IsPositive() && !(c.Acct == "" && (s.kind == "ed25519" || s.kind == "secp256k1")):
 		out.why = "balance below fee"
@@ -558,6 +575,23 @@ func (e *c03env) build(c c03case, view chain.View) c03built {
 		out.expect = true
 	}
 	return out
+}
+
+// c03feeWellFormed: a fee is a list of coins in strictly ascending denomination order, every amount
+// positive (decided here, not by Coins.IsValid).
+func c03feeWellFormed(fee sdk.Coins) bool {
+	for i, c := range fee {
+		if !c.Amount.BigInt().IsInt64() || c.Amount.Int64() <= 0 {
+			return false
+		}
+		if len(c.Denom) < 3 || len(c.Denom) > 16 {
+			return false
+		}
+		if i > 0 && fee[i-1].Denom >= c.Denom {
+			return false
+		}
+	}
+	return true
 }
 
 type c03result struct {
@@ -781,6 +815,66 @@ func runC03sameBlock(stats *c03stats) []c03result {
 	return out
 }
 
+// runC03negativeFee (section H): a fee with a negative entry is no fee at all, also when the fee
+// collector could "pay" it because an earlier transaction of the same block has put coins of that
+// denomination there, and also when nothing is required (default multiplier 0).
+func runC03negativeFee(stats *c03stats) []c03result {
+	var out []c03result
+	for _, mode := range []string{"default0", "default1"} {
+		d := chain.NewDriver(c03cfg(mode))
+		d.RunBlock(chain.Block{}, nil)
+		coin := func(denom string, amt int64) sdk.Coin { return sdk.Coin{Denom: denom, Amount: sdk.NewInt(amt)} }
+		raw := func(from int, fee sdk.Coins, entropy int64) chain.Event {
+			msg := posTypes.MsgSend{FromAddress: chain.Addr(from), ToAddress: chain.Addr(4), Amount: sdk.NewInt(7)}
+			return chain.Event{Kind: "tx", Tx: &chain.TxSpec{Msg: "raw", Raw: chain.SignTx(msg, fee, "", entropy, chain.Key(from), true)}}
+		}
+		type step struct {
+			label  string
+			ev     chain.Event
+			accept bool
+		}
+		steps := []step{
+			{"send by k3 paying 10000upokt", raw(3, sdk.Coins{coin(chain.Denom, 10000)}, 880001), true},
+			{"send by k2 paying 5abc,10000upokt", raw(2, sdk.Coins{coin("abc", 5), coin(chain.Denom, 10000)}, 880002), true},
+			{"send by k2 with fee 1abc,-1000upokt", raw(2, sdk.Coins{coin("abc", 1), coin(chain.Denom, -1000)}, 880003), false},
+			{"send by k100 with fee -5abc,10000upokt", raw(100, sdk.Coins{coin("abc", -5), coin(chain.Denom, 10000)}, 880004), false},
+			{"send by k2 with fee 1abc,0upokt", raw(2, sdk.Coins{coin("abc", 1), coin(chain.Denom, 0)}, 880005), false},
+		}
+		var evs []chain.Event
+		for _, st := range steps {
+			evs = append(evs, st.ev)
+		}
+		var before chain.View
+		got := make([]bool, len(steps))
+		moved := make([]string, len(steps))
+		res := d.RunBlock(chain.Block{Events: evs}, &chain.Hooks{
+			BeforeEvent: func(dd *chain.Driver, i int, e chain.Event) { before = dd.App.Decode(dd.App.RawDump()) },
+			AfterEvent: func(dd *chain.Driver, i int, e chain.Event, tr *chain.TxResult) {
+				after := dd.App.Decode(dd.App.RawDump())
+				got[i] = tr.Code == 0 || !after.FeePool.Equal(before.FeePool) || hasActionEvent(*tr)
+				moved[i] = fmt.Sprintf("fee collector %s -> %s upokt", before.FeePool, after.FeePool)
+			},
+		})
+		for i, st := range steps {
+			stats.add("cases", 1)
+			stats.add("negative-fee-entries", 1)
+			if res.Panic != "" || i >= len(res.Txs) {
+				out = append(out, c03result{"C03|negative-fee|panic", fmt.Sprintf("block panicked: %s", res.Panic), c03case{Name: "H", FeeMult: mode}})
+				break
+			}
+			if got[i] != st.accept {
+				kind := "accepted-but-must-reject|invalid-fee"
+				if st.accept {
+					kind = "rejected-but-must-accept"
+				}
+				out = append(out, c03result{"C03|" + kind + "|collector-holds-that-denomination", fmt.Sprintf("multipliers %s, step %d (%s): ante accepted=%v, must be %v (code %d, %s, log %.160s)", mode, i, st.label, got[i], st.accept, res.Txs[i].Code, moved[i], res.Txs[i].Log), c03case{Name: "H", Msg: "send", Fee: st.label, FeeMult: mode}})
+			}
+		}
+		d.Close()
+	}
+	return out
+}
+
 func C03(tier string) int {
 	run := ev.NewRun("C03", tier, "exploration")
 	all := c03cases()
@@ -822,6 +916,9 @@ func C03(tier string) int {
 	for _, r := range runC03sameBlock(stats) {
 		run.Report(r.sig, r.what, r.c)
 	}
+	for _, r := range runC03negativeFee(stats) {
+		run.Report(r.sig, r.what, r.c)
+	}
 	classes := 0
 	for range stats.m {
 		classes++
@@ -829,7 +926,7 @@ func C03(tier string) int {
 	run.Set("evaluations", int64(len(all)))
 	run.Set("distinct_nontrivial", int64(classes))
 	run.Set("outcome_classes", stats.m)
-	run.Set("rule", "union of complete sub-products: A message kind(8) x signer account kind(ed25519, secp256k1, 2-key multisig, nested multisig) x signing variant (own / other key same type / other type / foreign, swapped, short, duplicate, extra component / other multisig / single key) x key source (attached / from state); A2 unknown and key-less accounts, and an account whose stored key is another party's; B every post-signing mutation (chain id, message field, fee amount, fee denom, memo, memo white space, entropy, signature bit flip, truncation, empty) x message kind x signer kind; C fee (req-1, req, req+1, none) x fee-multiplier setting (default 1; keyed list unjail x1, send x3, stake x2; default 0; multipliers whose product with the base fee exceeds 2^63 and 2^64: nothing affordable may be accepted) x message kind x signer kind; D balance grid; E memo bounds; F replays (after commit: judged; same block: recorded); G fee requirement after a governance change of the multipliers earlier in the same block. distinct_nontrivial = distinct outcome classes (accepted / rejected-by-reason) observed")
+	run.Set("rule", "union of complete sub-products: A message kind(8) x signer account kind(ed25519, secp256k1, 2-key multisig, nested multisig) x signing variant (own / other key same type / other type / foreign, swapped, short, duplicate, extra component / other multisig / single key) x key source (attached / from state); A2 unknown and key-less accounts, and an account whose stored key is another party's; B every post-signing mutation (chain id, message field, fee amount, fee denom, memo, memo white space, entropy, signature bit flip, truncation, empty) x message kind x signer kind; C fee (req-1, req, req+1, none, other denominations, a negative or zero entry behind / before the paying one) x fee-multiplier setting (default 1; keyed list unjail x1, send x3, stake x2, upgrade x5, dao x4; default 0; multipliers whose product with the base fee exceeds 2^63 and 2^64: nothing affordable may be accepted) x message kind x signer kind; D balance grid; E memo bounds; F replays (after commit: judged; same block: recorded); G fee requirement after a governance change of the multipliers earlier in the same block; H fees with a negative or zero entry delivered behind transactions that have put coins of that denomination into the fee collector (default multiplier 0 and 1). distinct_nontrivial = distinct outcome classes (accepted / rejected-by-reason) observed")
 	run.Sample(c03case{Name: "A", Msg: "send", Signer: "ed25519", Variant: "other-same-type", KeySrc: "attached", Mut: "none", Fee: "req", Memo: "empty", Replay: "first", FeeMult: "default1"})
 	run.Sample(c03case{Name: "C", Msg: "send", Signer: "multisig", Variant: "own", KeySrc: "attached", Mut: "none", Fee: "req-1", Memo: "empty", Replay: "first", FeeMult: "type3"})
 	run.Assume("signature validity is decided by Tendermint's ed25519/secp256k1 primitives and the positional N-of-N rule; signatures are made and judged over the harness's own rendering of the documented sign bytes (key-sorted JSON of chain id, entropy, fee, memo, message sign bytes), not over the repository's StdSignBytes",
